@@ -1617,6 +1617,10 @@ class ContractionTree:
 
         # make sure all flops and size information has been populated
         tree.contract_stats()
+        # ... including the involved indices, which are derived from the child
+        # legs, and thus need to be cached *before* any leaf is reset below
+        for node in tree.children:
+            tree.get_involved(node)
 
         d = tree.size_dict[ind]
         if project is None:
